@@ -10,7 +10,7 @@
    Z.testbit / Z.bits_inj', by induction over the ascending value table.
    Notation as in Properties/C04.v. *)
 From Coq Require Import List ZArith Bool String Sorted.
-From Shoot Require Import Model.Enum Proofs.EnumBits Proofs.EnumTables Proofs.EnumProofs.
+From Shoot Require Import Model.Enum Proofs.EnumBits Proofs.EnumTables Proofs.EnumProofs Corr.EnumCorr Proofs.EnumPb.
 Import ListNotations.
 Local Open Scope string_scope.
 Local Open Scope Z_scope.
@@ -77,7 +77,6 @@ Print Assumptions C14_string_of_declared.
    Other declared values (a zero, composites) may be present in any number. *)
 Theorem C14_string_of_union : forall p T fl g (names : list string) (S : list Z),
   enum_guard p T = true -> generate p T fl = Some g -> f_bit fl = true ->
-  shadow_v T = false ->                      (* K_bit_receiver_shadow: type named V... *)
   Forall (fun v => 0 <= v) (map snd (declared T p)) ->
   S <> [] -> StronglySorted Z.lt S -> Forall single_bit S ->
   Forall2 (fun n s => In (n, s) (declared T p)) names S ->
@@ -91,7 +90,7 @@ Print Assumptions C14_string_of_union.
    bit-flag enums: non-negative values, every bit of every declared value
    (composites!) is itself a declared flag *)
 Theorem C14_string_of_other_is_decimal : forall p T fl g x,
-  enum_guard p T = true -> generate p T fl = Some g -> shadow_v T = false ->
+  enum_guard p T = true -> generate p T fl = Some g ->
   bits_declared (map snd (declared T p)) ->
   ~ In x (map snd (declared T p)) ->
   (x < 0 \/ x = 0 \/ exists i, 0 <= i /\ Z.testbit x i = true /\ ~ In (2 ^ i) (map snd (declared T p))) ->
@@ -121,6 +120,25 @@ Theorem C14_single_bit_decidable : forall f, is_single f = true <-> single_bit f
 Proof. exact is_single_spec. Qed.
 Print Assumptions C14_single_bit_decidable.
 
+(* the boolean property evaluated on the implementation's observation
+   (EnumCorr.Pb14: String() over the exhaustive range against the declarative
+   specification "declared -> name; all bits declared -> names ascending joined
+   by ', '; else decimal", Has/Add/Remove algebra on every (value, flag) pair) is
+   implied by the theorems: the model's own observation satisfies it inside the
+   guard, for any range, any flag list, any window *)
+Theorem C14_checked_property_follows : forall (c : case) (o : obs),
+  enum_guard (c_pkg c) (c_type c) = true ->
+  f_bit (c_flags c) = true ->
+  Pb14 c (model_obs c o) = true.
+Proof. exact Pb14_model_in_guard. Qed.
+Print Assumptions C14_checked_property_follows.
+
+Theorem C14_checked_property_follows_without_bit : forall (c : case) (o : obs),
+  enum_guard (c_pkg c) (c_type c) = true -> f_bit (c_flags c) = false ->
+  Pb14 c (model_obs c o) = true.
+Proof. exact Pb14_model_nobit. Qed.
+Print Assumptions C14_checked_property_follows_without_bit.
+
 (* ------------------------------------------------------------- non-vacuity *)
 Definition vs (names : list string) (ty : vtype) (vals : list cexpr) : vspec :=
   {| vs_names := names; vs_type := ty; vs_vals := vals |}.
@@ -141,7 +159,7 @@ Definition ex_pkg : pkg :=
 Definition bit_flags : flags := {| f_bit := true; f_json := false; f_text := false; f_sql := false; f_gorm := false |}.
 
 Example C14_example_guard :
-  enum_guard ex_pkg "Perm" = true /\ shadow_v "Perm" = false /\ shadow_i "Perm" = false
+  enum_guard ex_pkg "Perm" = true
   /\ bits_declared_b (map snd (declared "Perm" ex_pkg)) = true
   /\ declared "Perm" ex_pkg =
        [("PermNone", 0); ("PermRead", 1); ("PermWrite", 2); ("PermExec", 4); ("PermRW", 3); ("Sticky", 64); ("PermAll", 71)].
@@ -166,40 +184,30 @@ Example C14_example_strings :
        = ["None"; "RW"; "Read, Exec"; "Read, Exec, Sticky"; "Read, Write, Exec"; "All"; "8"; "72"; "128"; "-1"].
 Proof. eexists. conj; vm_compute; reflexivity. Qed.
 
-(* ----------------------------- the receiver guard is needed: known finding ---- *)
-(* K_bit_receiver_shadow (open).  The receiver of the generated methods is the
-   lower-cased first letter of the type name and the -bit String() calls its
-   working copy <receiver>_ ; the loop of the template declares i_ and v_.
-   Type name V...: the loop's v_ shadows the working copy, the output compiles
-   and String() of a union of declared flags is decimal, String(0) lists every flag. *)
+(* ------------------------------------ K_bit_receiver_shadow (repaired in /repo) ---- *)
+(* The receiver of the generated methods is the lower-cased first letter of the
+   type name; the -bit String() used to call its working copy <receiver>_ while
+   its loop declares i_ and v_: a type named V... compiled with a wrong String()
+   (String(A|B) = "3", String(0) = "A, B, C"), a type named I... did not compile.
+   The working copy is now <receiver>x_ for those receivers; such types behave
+   like any other (they are inside the guard, no naming hypothesis is left). *)
 Definition vis_pkg : pkg :=
-  {| p_types := [("Vis", KUint8)];
+  {| p_types := [("Vis", KUint8); ("IOMode", KUint8)];
      p_files := [ [ [ vs ["VisA"] (TIdent "Vis") [EShl (ELit 1) EIota];
-                      vs ["VisB"] TNone []; vs ["VisC"] TNone [] ] ] ] |}.
-
-Theorem C14_refuted_K_bit_receiver_shadow_v :
-  exists p T g,
-    enum_guard p T = true /\ generate p T bit_flags = Some g
-    /\ bits_declared_b (map snd (declared T p)) = true
-    /\ compiles (const_env p) g false = true
-    /\ In ("VisA", 1) (declared T p) /\ In ("VisB", 2) (declared T p)
-    /\ str_of (const_env p) g (lor_all [1; 2]) = "3"
-    /\ str_of (const_env p) g 0 = "A, B, C".
-Proof.
-  exists vis_pkg, "Vis". eexists. conj; vm_compute; try reflexivity; tauto.
-Qed.
-Print Assumptions C14_refuted_K_bit_receiver_shadow_v.
-
-(* Type name I...: the loop counter i_ shadows the working copy: `i_.Has` on an
-   int, the fresh output does not compile *)
-Definition idx_pkg : pkg :=
-  {| p_types := [("IOMode", KUint8)];
-     p_files := [ [ [ vs ["IOModeR"] (TIdent "IOMode") [EShl (ELit 1) EIota];
+                      vs ["VisB"] TNone []; vs ["VisC"] TNone [] ];
+                    [ vs ["IOModeR"] (TIdent "IOMode") [EShl (ELit 1) EIota];
                       vs ["IOModeW"] TNone [] ] ] ] |}.
 
-Theorem C14_refuted_K_bit_receiver_shadow_i :
-  exists p T g,
-    enum_guard p T = true /\ generate p T bit_flags = Some g
-    /\ compiles (const_env p) g false = false.
-Proof. exists idx_pkg, "IOMode". eexists. conj; vm_compute; reflexivity. Qed.
-Print Assumptions C14_refuted_K_bit_receiver_shadow_i.
+Example C14_example_K_bit_receiver_shadow_repaired :
+  enum_guard vis_pkg "Vis" = true /\ enum_guard vis_pkg "IOMode" = true
+  /\ (exists g, generate vis_pkg "Vis" bit_flags = Some g
+        /\ compiles (const_env vis_pkg) g false = true
+        /\ map (str_of (const_env vis_pkg) g) [0; 1; 2; 3; 7] = ["0"; "A"; "B"; "A, B"; "A, B, C"])
+  /\ (exists g, generate vis_pkg "IOMode" bit_flags = Some g
+        /\ compiles (const_env vis_pkg) g false = true
+        /\ str_of (const_env vis_pkg) g 3 = "R, W").
+Proof.
+  split; [vm_compute; reflexivity|]. split; [vm_compute; reflexivity|]. split.
+  - eexists. conj; vm_compute; reflexivity.
+  - eexists. conj; vm_compute; reflexivity.
+Qed.
